@@ -116,6 +116,148 @@ def runCalls [DecidableEq K] (c : Cfg A K V) : St K V → List A → St K V × L
     let (s2, vs) := runCalls c s1 as
     (s2, v :: vs)
 
+/-! ## Memo tables with an arbitrary eviction policy; `functools.lru_cache`
+
+`util.file_monitoring_lru_cache` (hence `util.hashfile`), `features.emodulus.load`,
+`isoelastics`, `http_utils`, `fmt_s3` keep their results in a `functools.lru_cache`.  A table is
+a list of entries ordered from the next victim to the most recently inserted / used one; an
+eviction policy says what happens to it on a hit and on a miss. -/
+
+structure Evict (K V : Type) where
+  onHit  : K → V → List (K × V) → List (K × V)
+  onMiss : Nat → K → V → List (K × V) → List (K × V)
+
+/-- append, then drop from the victim end whatever exceeds the capacity -/
+def pushCap (cap : Nat) (s : List (K × V)) (k : K) (v : V) : List (K × V) :=
+  (s ++ [(k, v)]).drop ((s ++ [(k, v)]).length - cap)
+
+/-- `functools.lru_cache(maxsize=cap)`: a hit moves the entry to the most-recent end, a miss
+appends and evicts the least recently used entry (`maxsize=0`: nothing is stored) -/
+def lru [DecidableEq K] : Evict K V where
+  onHit k v s := erase k s ++ [(k, v)]
+  onMiss cap k v s := pushCap cap s k v
+
+/-- first-in-first-out (the policy of `dclab.cached.Cache`): hits do not reorder -/
+def fifo : Evict K V where
+  onHit _ _ s := s
+  onMiss cap k v s := pushCap cap s k v
+
+def tcall [DecidableEq K] (e : Evict K V) (c : Cfg A K V) (s : List (K × V)) (a : A) :
+    List (K × V) × V :=
+  match lookup (c.enc a) s with
+  | some v => (e.onHit (c.enc a) v s, v)
+  | none => (e.onMiss c.cap (c.enc a) (c.f a) s, c.f a)
+
+def trun [DecidableEq K] (e : Evict K V) (c : Cfg A K V) : List (K × V) → List A → List (K × V) × List V
+  | s, [] => (s, [])
+  | s, a :: as =>
+    let r := tcall e c s a
+    let rs := trun e c r.1 as
+    (rs.1, r.2 :: rs.2)
+
+/-- hit (true) / miss (false) pattern of a history -/
+def thits [DecidableEq K] (e : Evict K V) (c : Cfg A K V) : List (K × V) → List A → List Bool
+  | _, [] => []
+  | s, a :: as => (lookup (c.enc a) s).isSome :: thits e c (tcall e c s a).1 as
+
+/-! ### state machines and refinement -/
+
+structure Machine (S A V : Type) where
+  init : S
+  step : S → A → S × V
+
+def Machine.run (m : Machine S A V) : S → List A → List V
+  | _, [] => []
+  | s, a :: as => (m.step s a).2 :: m.run (m.step s a).1 as
+
+/-- the specification: no cache at all -/
+def noCache (f : A → V) : Machine Unit A V := { init := (), step := fun _ a => ((), f a) }
+
+def fifoM [DecidableEq K] (c : Cfg A K V) : Machine (St K V) A V :=
+  { init := { store := [], keys := [] }, step := call c }
+
+def tableM [DecidableEq K] (e : Evict K V) (c : Cfg A K V) : Machine (List (K × V)) A V :=
+  { init := [], step := tcall e c }
+
+/-! ## The file system seen by `file_monitoring_lru_cache`
+
+A file is its bytes and its modification time; its size is the length of the bytes.  Path
+spellings (relative paths, links, `..`) resolve to files through `res`, which `chdir` and
+re-targeted links change (`rebind`). -/
+
+structure FileSt where
+  bytes : List Nat
+  mtime : Nat
+deriving DecidableEq, Repr
+
+def stampOf (f : FileSt) : Nat × Nat := (f.mtime, f.bytes.length)
+
+structure FsSt (P Sp : Type) where
+  files : P → Option FileSt
+  res   : Sp → P
+
+inductive FsOp (P Sp Ar : Type) where
+  | write (p : P) (bytes : List Nat) (mtime : Nat)   -- any rewrite (also `os.utime`)
+  | remove (p : P)
+  | rebind (sp : Sp) (p : P)                          -- chdir / link re-targeted
+  | hash (sp : Sp) (ar : Ar)                          -- the memoised call
+
+/-- the call as the lru table sees it: resolved path, the file as it is now, other arguments -/
+abbrev FCall (P Ar : Type) := P × FileSt × Ar
+
+/-- key = (resolved path, (mtime_ns, size), arguments); value = `h bytes args` -/
+def fileCfg (h : List Nat → Ar → V) (cap : Nat) : Cfg (FCall P Ar) (P × (Nat × Nat) × Ar) V :=
+  { f := fun a => h a.2.1.bytes a.2.2, enc := fun a => (a.1, stampOf a.2.1, a.2.2), cap := cap }
+
+def fsApply [DecidableEq P] [DecidableEq Sp] (st : FsSt P Sp) : FsOp P Sp Ar → FsSt P Sp
+  | .write p b m => { st with files := fun q => if q = p then some ⟨b, m⟩ else st.files q }
+  | .remove p => { st with files := fun q => if q = p then none else st.files q }
+  | .rebind sp p => { st with res := fun x => if x = sp then p else st.res x }
+  | .hash _ _ => st
+
+/-- mirror of `file_monitoring_lru_cache.__call__.wrapper` over a history; one output per `hash`:
+`none` = the path does not exist (the function is called directly and raises, nothing cached) -/
+def fsRun [DecidableEq P] [DecidableEq Sp] [DecidableEq Ar] (e : Evict (P × (Nat × Nat) × Ar) V)
+    (h : List Nat → Ar → V) (cap : Nat) :
+    FsSt P Sp → List ((P × (Nat × Nat) × Ar) × V) → List (FsOp P Sp Ar) → List (Option V)
+  | _, _, [] => []
+  | st, t, .hash sp ar :: ops =>
+    match st.files (st.res sp) with
+    | none => none :: fsRun e h cap st t ops
+    | some f =>
+      let r := tcall e (fileCfg h cap) t (st.res sp, f, ar)
+      some r.2 :: fsRun e h cap st r.1 ops
+  | st, t, op :: ops => fsRun e h cap (fsApply st op) t ops
+
+/-- the same history without a cache -/
+def fsSpec [DecidableEq P] [DecidableEq Sp] (h : List Nat → Ar → V) :
+    FsSt P Sp → List (FsOp P Sp Ar) → List (Option V)
+  | _, [] => []
+  | st, .hash sp ar :: ops => (st.files (st.res sp)).map (fun f => h f.bytes ar) :: fsSpec h st ops
+  | st, op :: ops => fsSpec h (fsApply st op) ops
+
+/-- the memoised calls a history makes -/
+def fsCalls [DecidableEq P] [DecidableEq Sp] :
+    FsSt P Sp → List (FsOp P Sp Ar) → List (FCall P Ar)
+  | _, [] => []
+  | st, .hash sp ar :: ops =>
+    match st.files (st.res sp) with
+    | none => fsCalls st ops
+    | some f => (st.res sp, f, ar) :: fsCalls st ops
+  | st, op :: ops => fsCalls (fsApply st op) ops
+
+/-- **the assumption** of the file cache: whenever the same file is hashed twice with the same
+(mtime, size) stamp, its bytes are the same -/
+def StampOK (calls : List (FCall P Ar)) : Prop :=
+  ∀ a ∈ calls, ∀ b ∈ calls, a.1 = b.1 → stampOf a.2.1 = stampOf b.2.1 → a.2.1.bytes = b.2.1.bytes
+
+/-- what `hashfile(path[, blocksize, count])` feeds to md5: everything for `count = 0` (the
+default), else the first `count` blocks.  `none` = called without the keyword arguments — for
+`functools.lru_cache` that is another key than the same values passed explicitly. -/
+def hashedBytes (b : List Nat) : Option (Nat × Nat) → List Nat
+  | none => b
+  | some ar => if ar.2 = 0 then b else b.take (ar.1 * ar.2)
+
 /-! ## `LazyContourList` -/
 
 structure Deques (C : Type) where
@@ -175,5 +317,78 @@ def astep (p : Policy) (cache : List Nat) : AOp → List Nat × AOut
 def arun (p : Policy) : List Nat → List AOp → List AOut
   | _, [] => []
   | c, op :: ops => let (c', o) := astep p c op; o :: arun p c' ops
+
+/-! ## Ownership of memoised results
+
+The memo table stores *objects* (arrays); what the wrapper hands out is an object id.  `alias`:
+the stored object itself, writable (`dclab.cached.Cache` when called directly); `readOnly`: the
+stored object, write-protected; `copy`: a fresh object with the same content (what
+`kde_methods.ignore_nan_inf` and `get_downsampled_scatter` do with the stored result). -/
+
+structure Obj where
+  data : List Nat
+  writeable : Bool
+deriving DecidableEq, Repr
+
+def upd (h : Nat → Obj) (i : Nat) (o : Obj) : Nat → Obj := fun j => if j = i then o else h j
+
+structure OSt (K : Type) where
+  heap  : Nat → Obj          -- object store
+  next  : Nat                -- next fresh object id
+  table : List (K × Nat)     -- key ↦ id of the stored result (FIFO, as `Cache`)
+  out   : List Nat           -- ids handed out to the caller, oldest first
+
+inductive OOp (A : Type) where
+  | call (a : A)
+  | poke (r i v : Nat)       -- `res[i] = v` on the r-th object the caller received
+deriving Repr
+
+inductive OOut where
+  | val (id : Nat) (xs : List Nat)
+  | ok
+  | readOnlyError
+  | noResult
+deriving DecidableEq, Repr
+
+/-- look the call up; on a miss compute, store a new object and evict (FIFO) -/
+def ostore [DecidableEq K] (p : Policy) (c : Cfg A K (List Nat)) (s : OSt K) (a : A) : OSt K × Nat :=
+  match lookup (c.enc a) s.table with
+  | some id => (s, id)
+  | none => ({ s with heap := upd s.heap s.next ⟨c.f a, p != .readOnly⟩, next := s.next + 1,
+                      table := pushCap c.cap s.table (c.enc a) s.next }, s.next)
+
+/-- hand the stored object `sid` out according to the policy -/
+def handOut (p : Policy) (s : OSt K) (sid : Nat) : OSt K × OOut :=
+  match p with
+  | .copy => ({ s with heap := upd s.heap s.next ⟨(s.heap sid).data, true⟩, next := s.next + 1,
+                       out := s.out ++ [s.next] }, .val s.next (s.heap sid).data)
+  | _ => ({ s with out := s.out ++ [sid] }, .val sid (s.heap sid).data)
+
+def ostep [DecidableEq K] (p : Policy) (c : Cfg A K (List Nat)) (s : OSt K) : OOp A → OSt K × OOut
+  | .call a => handOut p (ostore p c s a).1 (ostore p c s a).2
+  | .poke r i v =>
+    match s.out[r]? with
+    | none => (s, .noResult)
+    | some id =>
+      if (s.heap id).writeable then
+        ({ s with heap := upd s.heap id ⟨(s.heap id).data.set i v, true⟩ }, .ok)
+      else (s, .readOnlyError)
+
+def orun [DecidableEq K] (p : Policy) (c : Cfg A K (List Nat)) : OSt K → List (OOp A) → List OOut
+  | _, [] => []
+  | s, op :: ops => (ostep p c s op).2 :: orun p c (ostep p c s op).1 ops
+
+def oinit : OSt K := { heap := fun _ => ⟨[], true⟩, next := 0, table := [], out := [] }
+
+/-- what a caller who never mutates anything would get: one value per call -/
+def ospec (f : A → List Nat) : List (OOp A) → List (Option (List Nat))
+  | [] => []
+  | .call a :: ops => some (f a) :: ospec f ops
+  | .poke _ _ _ :: ops => none :: ospec f ops
+
+def ovals : List OOut → List (Option (List Nat))
+  | [] => []
+  | .val _ xs :: os => some xs :: ovals os
+  | _ :: os => none :: ovals os
 
 end DclabModel.Cache
